@@ -14,7 +14,18 @@ import (
 // modelApplies: settings served by fastgo's own compressors through the flate API, without a
 // dictionary, on a build/level whose match finder and packers are the Go code that is modelled.
 func modelApplies(s Setting) bool {
-	if s.API != "flate" || s.Dict != nil || !s.Accelerated() {
+	if s.Dict != nil || !s.Accelerated() {
+		return false
+	}
+	switch s.API {
+	case "flate", "zlib":
+	case "gzip":
+		// header fields the gzip Writer rejects (NUL in a string, oversize Extra) or that need Go's time
+		// arithmetic are outside the container-writer model
+		if s.Hdr != nil && (bytes.IndexByte(unhex(s.Hdr.Name), 0) >= 0 || bytes.IndexByte(unhex(s.Hdr.Comment), 0) >= 0 || len(s.Hdr.Extra) > 2*65535 || s.Hdr.ModTime < 0 || s.Hdr.ModTime >= 1<<32) {
+			return false
+		}
+	default:
 		return false
 	}
 	if buildName == "noasm" || VerifLevel() == 0 {
@@ -68,7 +79,28 @@ func (p *DriverPool) ModelW(s Setting, datas [][]byte, ops []Op, failAt int) (*M
 	if buildName == "noasm" {
 		sync = 0 // encode_other.go: optimizedEncodeTokens does not Sync before packing
 	}
-	fmt.Fprintf(&b, "W %d %d %d %d", sync, s.Level, w4, failAt)
+	switch s.API {
+	case "gzip":
+		h := s.Hdr
+		if h == nil {
+			h = &GzHeader{OS: 255} // gzip.Writer's default: unknown
+		}
+		ex := "N"
+		if h.Extra != "" {
+			ex = h.Extra
+		}
+		nz := func(x string) string {
+			if x == "" {
+				return "-"
+			}
+			return x
+		}
+		fmt.Fprintf(&b, "C g %d %d %d %s:%s:%s:%d:%d", sync, s.Level, failAt, ex, nz(h.Name), nz(h.Comment), h.ModTime, h.OS)
+	case "zlib":
+		fmt.Fprintf(&b, "C z %d %d %d -", sync, s.Level, failAt)
+	default:
+		fmt.Fprintf(&b, "W %d %d %d %d", sync, s.Level, w4, failAt)
+	}
 	cur := make([]int, len(datas))
 	for _, op := range ops {
 		switch op.K {
@@ -145,7 +177,11 @@ func compareModel(rep *Report, pool *DriverPool, c interface{}, s Setting, datas
 		}
 	}
 	modelSeq := uint64(total)*1315423911 + uint64(len(ops))*2654435761 + uint64(failAt)*97
-	if modelTier != "thorough" && (rep.Prop == "C16" || rep.Prop == "C14") && total > 3000 && modelSeq%10 != 0 {
+	if modelTier != "thorough" && rep.Prop == "C16" && total <= 3000 && modelSeq%3 != 0 {
+		rep.Count("model:skipped-sampled-out")
+		return
+	}
+	if modelTier != "thorough" && (rep.Prop == "C16" || rep.Prop == "C14") && total > 3000 && modelSeq%16 != 0 {
 		rep.Count("model:skipped-sampled-out")
 		return
 	}
